@@ -25,7 +25,7 @@ PART, NPART = part(), npart()
 THOROUGH = os.environ.get("VERIF_TIER", "quick") == "thorough"
 SRV = ws.make_server(("--incremental_sync", "--disable_autoupdate"))
 FAIL = []
-UNIVERSE = {"a", "b", "c", "d", "y", "z", "inner", "main", "m1", "m2"}
+UNIVERSE = {"a", "b", "c", "d", "y", "z", "ex", "inner", "main", "m1", "m2"}
 KF_REEXPORT = kf_active("C05-reexport-private-default")
 VIS = C5.VIS
 
@@ -33,7 +33,7 @@ VIS = C5.VIS
 def accessible(w: W, scope: str):
     """{local name: entity} accessible at `scope` (main / inner), per the reference resolver"""
     names = {}
-    for n in ("a", "b", "c", "d", "y", "z"):
+    for n in ("a", "b", "c", "d", "y", "z", "ex"):
         e = w.resolve(scope, n)
         if e not in (None, "AMBIGUOUS"):
             names[n] = e
@@ -68,7 +68,7 @@ def check_world(w: W):
             got_u = {g for g in got if g in UNIVERSE}
             want = {n for n in acc if n.startswith(prefix)}
             if is_call:
-                want = {n for n in want if acc[n] in ("m1:c", "main:inner")}
+                want = {n for n in want if acc[n] in ("m1:c", "m1:ex", "main:inner")}
             if KF_REEXPORT and w.m2_private and w.target == "m2":
                 got_u -= {n for n in imported_m2 if n not in want}  # known finding C05-reexport-private-default
             if got_u != want:
